@@ -25,5 +25,6 @@ func VerifRouteCmdBuild(svc *api.CatalogService, prefix string, env map[string]s
 
 // VerifMakeConfig is ServiceMonitor.makeConfig on an already filtered check list.
 func VerifMakeConfig(m *ServiceMonitor, checks []*api.HealthCheck) string {
-	return m.makeConfig(checks)
+	cfg, _ := m.makeConfig(checks)
+	return cfg
 }
